@@ -244,10 +244,10 @@ func planClusterNonPushdown(opts *Opts, query *sql.Query) (core.FlatRowSource, e
 	sqlString := query.SQL
 	crosstabString := concatForCrosstab(sqlString)
 	lowerSQL := strings.ToLower(sqlString)
-	indexOfGroupBy := strings.Index(lowerSQL, "group by ")
-	indexOfHaving := strings.Index(lowerSQL, "having ")
-	indexOfOrderBy := strings.Index(lowerSQL, "order by ")
-	indexOfLimit := strings.Index(lowerSQL, "limit ")
+	indexOfGroupBy := indexOfClause(lowerSQL, "group by ")
+	indexOfHaving := indexOfClause(lowerSQL, "having ")
+	indexOfOrderBy := indexOfClause(lowerSQL, "order by ")
+	indexOfLimit := indexOfClause(lowerSQL, "limit ")
 	if indexOfGroupBy > 0 {
 		sqlString = sqlString[:indexOfGroupBy]
 	} else if indexOfHaving > 0 {
@@ -347,6 +347,35 @@ func planClusterNonPushdown(opts *Opts, query *sql.Query) (core.FlatRowSource, e
 	}
 
 	return addOrderLimitOffset(flat, query), nil
+}
+
+// indexOfClause finds the first occurrence of the given clause keyword in the
+// lower-cased SQL that belongs to the outermost query, meaning that it's
+// neither inside parentheses (subqueries, function calls) nor inside a quoted
+// string or identifier. Returns -1 if there's no such occurrence.
+func indexOfClause(lowerSQL string, keyword string) int {
+	depth := 0
+	var quote byte
+	for i := 0; i < len(lowerSQL); i++ {
+		c := lowerSQL[i]
+		switch {
+		case quote != 0:
+			if c == '\\' && quote != '`' {
+				i++
+			} else if c == quote {
+				quote = 0
+			}
+		case c == '\'' || c == '"' || c == '`':
+			quote = c
+		case c == '(':
+			depth++
+		case c == ')':
+			depth--
+		case depth == 0 && strings.HasPrefix(lowerSQL[i:], keyword):
+			return i
+		}
+	}
+	return -1
 }
 
 func planAsIfLocal(opts *Opts, sqlString string) (core.FlatRowSource, error) {
